@@ -10,6 +10,17 @@ C18  Pickling round-trip preserves program units.
      program units (Module: module procedures; Subroutine: internal procedures)
      re-parents them (``_reset_parent(self)``), re-registers them and rescopes.
  R3  symbol tables drop only the weak parent link and ``Scope`` owners restore it.
+ R4  state filters are key-based: a ``__getstate__`` anywhere in loki may leave
+     out entries by *name* (constant key set); a filter on the *value* (e.g.
+     truthiness) drops state depending on run-time values -- ``IntLiteral(0)``
+     and ``.false.`` are falsy, so ``initial=0`` would vanish.  Only ``v is not
+     None`` is accepted, and only where missing attributes read as ``None``.
+ R5  re-attachment is detected by identity: after unpickling, symbols are put
+     back into their scopes by ``rescope_symbols`` (AttachScopesMapper, a
+     ``LokiIdentityMapper``); expression equality is string based and cannot see
+     a changed scope, so every comparison of a ``self.rec(...)`` result with the
+     value it was computed from must be ``is`` / ``is not`` -- with ``==`` the
+     re-attached kind / initial-value expressions are never written back.
 Not decided: equality of everything else.
 """
 import ast
@@ -58,6 +69,89 @@ def _restored(f):
                 if d.startswith('self.') and d.count('.') == 1:
                     out.add(d.split('.')[1])
     return out
+
+
+def _r4_r5(ctx):
+    m = ctx.model
+    ctx.rule('R4', 'every __getstate__ in loki filters its state by key name only (value-based filters: only `is not None` with a '
+                   'None-returning __getattr__)')
+    ctx.rule('R5', 'LokiIdentityMapper: results of self.rec(...) are compared with their origin by identity (is / is not), never ==/!=')
+    n4 = 0
+    for mod in m.all_repo_modules():
+        if '/tests/' in mod.relpath:
+            continue
+        for cls in mod.classes.values():
+            mem = cls.members.get('__getstate__')
+            if mem is None or mem.kind != 'func':
+                continue
+            n4 += 1
+            inst = f'{cls.name}.__getstate__'
+            bad = None
+            for c in ast.walk(mem.node):
+                if isinstance(c, (ast.DictComp, ast.GeneratorExp, ast.ListComp)):
+                    for g in c.generators:
+                        tnames = [t.id for t in ast.walk(g.target) if isinstance(t, ast.Name)]
+                        if len(tnames) < 2 or 'items' not in ast.unparse(g.iter):
+                            continue
+                        vname = tnames[1]
+                        for cond in g.ifs:
+                            for sub in ast.walk(cond):
+                                if isinstance(sub, ast.Name) and sub.id == vname:
+                                    ok = False
+                                    for cmp_ in ast.walk(cond):
+                                        if isinstance(cmp_, ast.Compare) and isinstance(cmp_.left, ast.Name) and cmp_.left.id == vname \
+                                                and len(cmp_.ops) == 1 and isinstance(cmp_.ops[0], ast.IsNot) \
+                                                and isinstance(cmp_.comparators[0], ast.Constant) and cmp_.comparators[0].value is None:
+                                            ga = m.member_function(cls, '__getattr__')
+                                            ok = ga is not None and 'return None' in ast.unparse(ga.node)
+                                    if not ok:
+                                        bad = ast.unparse(cond)
+            if bad:
+                ctx.violation('R4', inst, f'{mod.relpath}:{mem.node.lineno}',
+                              f'{cls.name}.__getstate__ filters the pickled state by value (`if {bad}`): entries whose value is falsy but '
+                              f'meaningful (IntLiteral(0), LogicLiteral(False), empty tuples) are silently dropped, e.g. `initial=0` of a '
+                              f'PARAMETER is lost after a round trip', facts={'filter': bad})
+            else:
+                ctx.judge('R4', inst)
+    ctx.floor('R4', '__getstate__ methods in loki', n4, 8)
+    # ---- R5
+    IM = m.get_class('loki/expression/mappers.py', 'LokiIdentityMapper')
+    n5 = 0
+    for mem in IM.members.values():
+        if mem.kind != 'func' or not mem.name.startswith('map_'):
+            continue
+        recd = set()
+        for n in ast.walk(mem.node):
+            tg = None
+            if isinstance(n, ast.Assign) and len(n.targets) == 1 and isinstance(n.targets[0], ast.Name):
+                tg, v = n.targets[0].id, n.value
+            elif isinstance(n, ast.AugAssign) and isinstance(n.target, ast.Name):
+                tg, v = n.target.id, n.value
+            if tg and any(isinstance(c, ast.Call) and (X.dotted_attr(c.func) or '') == 'self.rec' for c in ast.walk(v)):
+                recd.add(tg)
+        if not recd:
+            continue
+        for n in ast.walk(mem.node):
+            if isinstance(n, ast.Compare) and len(n.ops) == 1:
+                sides = [n.left, n.comparators[0]]
+                names = [s_.id for s_ in sides if isinstance(s_, ast.Name)]
+                if not set(names) & recd:
+                    continue
+                other = [s_ for s_ in sides if not (isinstance(s_, ast.Name) and s_.id in recd)]
+                # only comparisons against the value the result was computed from (an attribute chain / name), not constants
+                if not other or isinstance(other[0], ast.Constant):
+                    continue
+                n5 += 1
+                inst = f'LokiIdentityMapper.{mem.name}:{ast.unparse(n)}'
+                if isinstance(n.ops[0], (ast.Is, ast.IsNot)):
+                    ctx.judge('R5', inst)
+                elif isinstance(n.ops[0], (ast.Eq, ast.NotEq)):
+                    ctx.violation('R5', f'LokiIdentityMapper.{mem.name}:equality-change-test', f'{IM.module.relpath}:{n.lineno}',
+                                  f'`{ast.unparse(n)}` decides by (string based) expression equality whether the recursed value changed: a '
+                                  f'symbol that was only re-attached to another scope compares equal, so the rebuilt declaration attributes '
+                                  f'are not written back (symbols in kind / initial stay detached after unpickling)',
+                                  instance=inst)
+    ctx.floor('R5', 'change tests on recursed values in LokiIdentityMapper', n5, 6)
 
 
 def run(ctx):
@@ -140,8 +234,15 @@ def run(ctx):
         (ctx.judge('R3', f'{cn} drops only _ast/_parent') if not extra else
          ctx.violation('R3', f'{cn}.__getstate__:drops', gsf.where, f'{cn}.__getstate__ also drops {sorted(extra)}: content is lost'))
 
+    _r4_r5(ctx)
 
 MUTANTS = [
+    Mutant('symbolattributes-truthy-state', 'loki/types/symbol_table.py', "    def __getstate__(self):\n        return self.__dict__\n",
+           "    def __getstate__(self):\n        return {k: v for k, v in self.__dict__.items() if k == 'dtype' or v}\n", expect=('R4', 'SymbolAttributes.__getstate__')),
+    Mutant('neutral-symbolattributes-not-none-state', 'loki/types/symbol_table.py', "    def __getstate__(self):\n        return self.__dict__\n",
+           "    def __getstate__(self):\n        return {k: v for k, v in self.__dict__.items() if v is not None}\n", expect=None),
+    Mutant('initial-change-by-equality', 'loki/expression/mappers.py', "initial is not old_type.initial or", "initial != old_type.initial or",
+           expect=('R5', 'equality-change-test')),
     Mutant('module-no-reparent', 'loki/module.py',
            "                if isinstance(node, Subroutine):\n                    node._reset_parent(self)\n                    node.register_in_parent_scope()\n\n                if isinstance(node, Scope):\n                    node._reset_parent(self)\n",
            "                if isinstance(node, Subroutine):\n                    node.register_in_parent_scope()\n",
